@@ -150,7 +150,7 @@ def textExecute (w : World) (o : TObj) (data : Value) : Res :=
   match tree with
   | none => .err "exec" []                  -- "incomplete or empty template" (ExecError)
   | some tr =>
-    let r := walkList ns.text 0 w.fuel data data [] tr.root
+    let r := walkList false ns.text 0 w.fuel data data [] tr.root
     match r.err with
     | none => .ok r.out
     | some .nilTree => .panic "nil pointer dereference: execution of a called template whose Tree is nil"
